@@ -67,14 +67,21 @@ def run_harness(exe, hf, graphs, timeout):
     log("harness crashed (rc=%s); re-running one graph at a time" % p.returncode)
     out = []
     one = os.path.join(common.run_dir(), "one.txt")
+    failures = 0
+    env = dict(os.environ, SV_WATCHDOG_SECS="45")
     for g in graphs:
+        if failures >= 4:
+            out.append("9")       # enough to report and to shrink from
+            continue
         with open(one, "w") as f:
             f.write(dg.encode(g) + "\n")
         try:
-            q = subprocess.run([exe, "dispatch", one], stdout=subprocess.PIPE, text=True, timeout=600)
+            q = subprocess.run([exe, "dispatch", one], stdout=subprocess.PIPE, text=True, timeout=600, env=env)
             ok = q.returncode == 0 and q.stdout.strip()
         except subprocess.TimeoutExpired:
             ok = False
+        if not ok:
+            failures += 1
         out.append(q.stdout.strip().split("\n")[0] if ok else "9")
     return out
 
